@@ -25,7 +25,7 @@ func init() {
 	property("C14",
 		"Static conformance of list handling: (a) a movement multiplier is accepted exactly in [1, 9999], must be an INT, and expands to exactly that many copies; (b) the movement emitter writes the terminator exactly once on every path and nothing after it; (c) the mart emitter writes '.align 2' first, stops at the first item equal to ITEM_NONE — tested on the very value it would write — and writes the terminator once, unconditionally, after the loop; items and their tokens are parallel; (d) list parsers append each identifier once and advance on every iteration. Integer tokens are decoded with ParseInt(literal, 0, 64) (C14.e); allocation sizes are bounded (C18.k); the expansion appends the step token itself (C14.a); Emit is total (C10.f).",
 		[]string{"go/ssa lowering is faithful to the source"},
-		"C14.a", "C14.b", "C14.c", "C14.d", "C06.b", "C12.f", "C12.g", "C13.c", "C12.a", "C10.f", "C19.f", "C18.k", "C14.e", "C01.h", "C13.a", "C08.e")
+		"C14.a", "C14.b", "C14.c", "C14.d", "C06.b", "C12.f", "C12.g", "C13.c", "C12.a", "C10.f", "C19.f", "C18.k", "C14.e", "C01.h", "C13.a", "C08.e", "C10.g")
 
 	register(&Rule{ID: "C12.f", Doc: "every parsed poryswitch case is recorded under its own name, whatever its content", Floor: 5, Run: c12f})
 	register(&Rule{ID: "C13.e", Doc: "no decision depends on how many tokens a substituted value was written with", Floor: 1, Run: c13e})
@@ -1456,6 +1456,38 @@ func c14d(c *Ctx) {
 				}
 			}
 			walk(acc, true)
+			// ... and a turn only ever adds at the end of what was gathered so far
+			{
+				seenG := map[ssa.Value]bool{}
+				var grows func(v ssa.Value) bool
+				grows = func(v ssa.Value) bool {
+					if v == ssa.Value(acc) || seenG[v] {
+						return true
+					}
+					seenG[v] = true
+					switch x := v.(type) {
+					case *ssa.Call:
+						return calleeName(x) == "builtin:append" && grows(x.Call.Args[0])
+					case *ssa.Phi:
+						if !body[x.Block()] {
+							return false
+						}
+						for _, e := range x.Edges {
+							if !grows(e) {
+								return false
+							}
+						}
+						return true
+					}
+					return false
+				}
+				for i, e := range acc.Edges {
+					if !head.Dominates(acc.Block().Preds[i]) {
+						continue
+					}
+					c.Check(grows(e), fmt.Sprintf("%s/list-grows-at-the-end#%d", fn.Name(), i), c.W.Pos(acc.Pos()), "what a turn hands to the next is the list so far with items added behind it", "a turn of the list loop hands on "+pretty(c.term(fn, e))+", which is not the list gathered so far with items appended: earlier items are dropped or the new ones are put in front")
+				}
+			}
 			c.Check(bad == "", fn.Name()+"/every-item-listed", c.W.Pos(acc.Pos()), "a turn of the list loop leaves the list unchanged only for a comma", "a turn of the list loop can consume a token that is not a comma and leave the list unchanged (through "+bad+"): an item that was written would be missing")
 		}
 	}
